@@ -126,14 +126,15 @@ Proof.
 Qed.
 
 (* marshalPacketBody then unmarshalPacketBody on a packet carrying the stored flag *)
-Lemma unmarshal_marshal thr has_c p b fl q :
+Lemma unmarshal_marshal thr has_c hd p b fl q :
+  (has_c = true -> hd = true) ->
   p_flag p < 256 -> clean_flags p ->
   marshal_body enc zip thr has_c p = (b, fl) -> 0 < lenN b -> p_flag q = fl ->
-  unmarshal_body dec unzip has_c b q
+  unmarshal_body dec unzip hd b q
     = Ok (set_body (set_flag q (p_flag p)) (decoded_body p))
   /\ 0 < lenN (body_bytes (p_body p)).
 Proof.
-  intros Hf Hc M Hb Hq. unfold clean_flags in Hc.
+  intros Himp Hf Hc M Hb Hq. unfold clean_flags in Hc.
   destruct (flags_facts _ Hf Hc) as (F1 & F2 & F3 & F4 & F5 & F6 & F7 & F8 & F9 & F10 & _).
   unfold marshal_body in M. rewrite (ldiff_marshal_clean _ Hc) in M.
   set (B := body_bytes (p_body p)) in *.
@@ -142,8 +143,8 @@ Proof.
   - (* compressed *)
     assert (HB : 0 < lenN B) by lia.
     destruct ((0 <? lenN (zip B)) && has_c) eqn:E; injection M as <- <-.
-    + assert (has_c = true) by (destruct has_c; [reflexivity|rewrite andb_false_r in E; discriminate]).
-      subst has_c.
+    + assert (Hhc : has_c = true) by (destruct has_c; [reflexivity|rewrite andb_false_r in E; discriminate]).
+      rewrite (Himp Hhc).
       destruct (N.eqb_spec (N.land (N.lor (N.lor (p_flag p) fCompressed) fEncrypted) fEncrypted) 0) as [X|_];
         [contradiction|]. cbn [negb]. rewrite dec_enc, F10.
       destruct (N.eqb_spec (N.land (N.lor (p_flag p) fCompressed) fCompressed) 0) as [X|_];
@@ -154,8 +155,8 @@ Proof.
         [contradiction|]. cbn [negb]. rewrite unzip_zip, F5.
       split; [|assumption]. destruct (N.land (p_flag p) fError =? 0); reflexivity.
   - destruct ((0 <? lenN B) && has_c) eqn:E; injection M as <- <-.
-    + assert (has_c = true) by (destruct has_c; [reflexivity|rewrite andb_false_r in E; discriminate]).
-      subst has_c.
+    + assert (Hhc : has_c = true) by (destruct has_c; [reflexivity|rewrite andb_false_r in E; discriminate]).
+      rewrite (Himp Hhc).
       destruct (N.eqb_spec (N.land (N.lor (p_flag p) fEncrypted) fEncrypted) 0) as [X|_];
         [contradiction|]. cbn [negb]. rewrite dec_enc, F7. cbn [N.eqb negb]. rewrite F8.
       split; [|lia]. destruct (N.land (p_flag p) fError =? 0); reflexivity.
@@ -193,15 +194,16 @@ Definition decoded_v1 (p p0 : packet) : packet :=
   mkPacket (p_cmd p) (p_seq p) (p_flag p) (p_typ p0) (p_node p0) (p_refers p0)
            (match body_bytes (p_body p) with [] => p_body p0 | _ => decoded_body p end).
 
-Theorem roundtrip_v1 thr has_c p n ws p' s rest p0 :
+Theorem roundtrip_v1 thr has_c hd p n ws p' s rest p0 :
+  (has_c = true -> hd = true) ->
   wf_packet p -> clean_flags p ->
   write_v1 enc zip thr has_c p = mkWres (Some n) ws p' ->
   concat s = concat ws ++ rest ->
-  let r := read_packet_v1 dec unzip has_c s p0 in
+  let r := read_packet_v1 dec unzip hd s p0 in
   r_out r = Ok (decoded_v1 p p0) /\ concat (r_rest r) = rest
   /\ r_allocs r = [n - hs1] /\ r_reads r = [hs1; n - hs1].
 Proof.
-  intros W Hc Hw Hs r. subst r.
+  intros Himp W Hc Hw Hs r. subst r.
   pose proof (write_v1_form enc zip thr has_c p) as F. rewrite Hw in F.
   destruct (marshal_body enc zip thr has_c p) as [b fl] eqn:M.
   destruct (max1 <? hs1 + lenN b) eqn:Hmax; [discriminate|]. apply N.ltb_ge in Hmax.
@@ -251,7 +253,7 @@ Proof.
   rewrite Ecmd, Eseq, Eflag.
   cbn [p_flag].
   destruct (N.ltb_spec 0 (lenN b)) as [Hb|Hb]; cbn [orb].
-  - destruct (unmarshal_marshal thr has_c p b fl
+  - destruct (unmarshal_marshal thr has_c hd p b fl
                 (mkPacket (p_cmd p) (p_seq p) fl (p_typ p0) (p_node p0) (p_refers p0) (p_body p0)))
       as [U HB]; try assumption; try reflexivity; [apply W|].
     rewrite U. unfold decoded_v1, set_body, set_flag. cbn [p_cmd p_seq p_flag p_typ p_node p_refers p_body].
